@@ -134,6 +134,8 @@ struct WorldSpec {
     stdin_not_utf8: bool,
     missing_name_not_utf8: bool,
     stdin_kind: StdinKind,
+    /// with StdinKind::Trickle: where the slow producer pauses
+    stdin_cuts: Vec<usize>,
     env: Vec<(String, String)>,
     hash_seed: u64,
 }
@@ -429,7 +431,44 @@ fn gen_world(t: &mut Tape) -> WorldSpec {
         source = big.into_bytes();
         source_kind = "corpus";
     }
+    // a slow producer: what standard input holds arrives in several pieces,
+    // cut anywhere (mostly inside a line); the contents are the same, so the
+    // tool has to print what the library prints
+    let mut stdin_kind = stdin_kind;
+    let mut stdin_cuts = Vec::new();
+    let piped_bytes = if file_via == FileVia::DevStdinPipe { source.len() } else { stdin.len() };
+    if stdin_kind == StdinKind::Pipe && piped_bytes >= 2 && tty == (false, false) && !stderr_tty && t.chance(1, 2) {
+        stdin_kind = StdinKind::Trickle;
+        if t.chance(1, 2) {
+            // every one of the first few lines arrives in two pieces
+            let bytes: &[u8] = if file_via == FileVia::DevStdinPipe { &source } else { &stdin };
+            let lines = 1 + t.draw(6) as usize;
+            let mut start = 0usize;
+            for _ in 0..lines {
+                if start >= bytes.len() {
+                    break;
+                }
+                let len = bytes[start..].iter().position(|&b| b == b'\n').unwrap_or(bytes.len() - start);
+                if len >= 2 {
+                    stdin_cuts.push(start + 1 + t.draw(len as u32 - 1) as usize);
+                }
+                start += len + 1;
+            }
+        }
+        if stdin_cuts.is_empty() {
+            let n = 1 + t.draw(5) as usize;
+            for _ in 0..n {
+                // (programs mostly read the first few lines: half of the
+                // pauses fall into the first 120 bytes)
+                let within = if t.chance(1, 2) { piped_bytes.min(120) } else { piped_bytes };
+                stdin_cuts.push(1 + t.draw(within as u32 - 1) as usize);
+            }
+        }
+        stdin_cuts.sort();
+        stdin_cuts.dedup();
+    }
     WorldSpec {
+        stdin_cuts,
         stalled_reader,
         removed_cwd,
         tty,
@@ -737,7 +776,7 @@ impl Property for C20 {
     fn plan(&self, tier: Tier) -> Plan {
         match tier {
             Tier::Quick => Plan {
-                scenarios: 900,
+                scenarios: 2400,
                 time_cap_s: 90,
                 shrink_budget: 300,
             },
@@ -857,6 +896,7 @@ impl Property for C20 {
                 w.stdin.clone()
             },
             stdin_kind: w.stdin_kind,
+            stdin_cuts: w.stdin_cuts.clone(),
             shared_out_err: false,
             removed_cwd: w.removed_cwd,
             stalled_stdout_reader_ms: if w.stalled_reader { 800 } else { 0 },
@@ -944,6 +984,11 @@ impl Property for C20 {
                 stats.inc("probe.program_consumed_more_than_64KiB_of_stdin_or_wrote_more_than_64KiB");
             }
         }
+        if w.stdin_kind == StdinKind::Trickle {
+            stats.inc("fault.configured.stdin.slow_producer");
+            stats.inc("fault.fired.stdin.slow_producer");
+            stats.add("count.stdin.slow_producer_pauses", w.stdin_cuts.len() as u64);
+        }
         if w.stdin.len() > 65536 && w.stdin_kind == StdinKind::Pipe {
             stats.inc("probe.stdin_larger_than_pipe_buffer_through_pipe");
         }
@@ -1009,6 +1054,10 @@ impl Property for C20 {
                 ("source_kind", J::s(w.source_kind)),
                 ("file_contents", J::S(render_bytes(&w.source))),
                 ("stdin_kind", J::s(format!("{:?}", w.stdin_kind))),
+                (
+                    "stdin_slow_producer_pauses_at",
+                    J::s(w.stdin_cuts.iter().map(|c| c.to_string()).collect::<Vec<_>>().join(",")),
+                ),
                 ("stdin", J::S(render_bytes(&w.stdin[..w.stdin.len().min(2000)]))),
                 ("stdin_bytes", J::U(w.stdin.len() as u64)),
                 ("binary_separate_streams", sep.to_json()),
